@@ -860,7 +860,10 @@ def run_device(rep, prop, with_witness=True):
                 items.append((tr, {"dut": label, "origin": "random-clean", "n": i}))
             # (b') systematic alignment sweeps: every distance between bus events, every stall / gap position
             if max0 == 64 or prop == "C07":
-                for name, sc in aligned_scripts(prop, desc_len, max0, QUICK_DISTANCES if quick else range(2, 25)):
+                dist = (QUICK_DISTANCES if max0 == 64 else (2, 4, 9)) if quick else range(2, 25)
+                for name, sc in aligned_scripts(prop, desc_len, max0, dist):
+                    if max0 != 64 and ("stalls=" in name or " gap@" in name):
+                        continue
                     tr = runner.run(sc, gap_prob=0.0, stall_prob=0.0)
                     items.append((tr, {"dut": label, "origin": "aligned", "case": name}))
             # (c) witnesses of open findings of this property (and regression for repaired ones)
